@@ -341,7 +341,7 @@ func init() {
 	register(&property{
 		Meta: propertyMeta{
 			ID:          "C10",
-			Explanation: "(C10-RESET) definite-assignment analysis of Context.Init with reset/Reset inlined by summary: every field of Context and of the embedded responseWriter is assigned on every path before dispatch, except 'router' which is proved request-invariant by who-may-write; adding a field without resetting it fails the check and names the field. (C10-PRISTINE) provenance of each reset value: constant, nil, parameter of Init, address of the context's own writer, or a zero-length re-slice of the field itself; re-sliced fields are never re-sliced beyond their length anywhere in the module. (C10-INIT) ServeHTTP: Get -> Init -> dispatch (C03-POOL); HandleContext: Reset dominates dispatch. (C03-EFF) no request-phase write to package-level or router state, so nothing else survives between requests inside rux. (C10-FRESH) every return of findAllowedMethods is, on every alternative including those that come round a loop, a slice built in that call (append from nil / make), never a slice field of a route or router nor an extension of one.",
+			Explanation: "(C10-RESET) definite-assignment analysis of Context.Init with reset/Reset inlined by summary: every field of Context and of the embedded responseWriter is assigned on every path before dispatch, except 'router' which is proved request-invariant by who-may-write; adding a field without resetting it fails the check and names the field. (C10-PRISTINE) provenance of each reset value: constant, nil, parameter of Init, address of the context's own writer, or a zero-length re-slice of the field itself; re-sliced fields are never re-sliced beyond their length anywhere in the module. (C10-INIT) ServeHTTP: Get -> Init -> dispatch (C03-POOL); HandleContext: Reset dominates dispatch. (C03-EFF) no request-phase write to package-level or router state, so nothing else survives between requests inside rux. (C10-FRESH) every return of findAllowedMethods is, on every alternative including those that come round a loop, a slice built in that call (append from nil / make), never a slice field of a route or router nor an extension of one. (C08-FACADE, clause 3) every store to Context.Resp stores the address of that same context's own writer: a Copy() that keeps the source's Resp would reach into the pooled context, which by then serves another request.",
 			NotDecided:  []string{"state a handler deliberately keeps outside the context (user code)", "equality of the k-th request's outcome with a fresh router's beyond rux's own state (C03/C07 cover shared state)"},
 			Assumptions: []string{"sync.Pool returns either a value previously Put or the result of New", "user handlers do not retain the *Context after the request (documented contract of pooled contexts)"},
 		},
@@ -351,6 +351,7 @@ func init() {
 			{"C10-INIT", ruleC10HandleContext},
 			{"C03-POOL", ruleC03Pool},
 			{"C03-EFF", ruleC03Eff},
+			{"C08-FACADE", ruleC08Facade},
 		},
 	})
 }
